@@ -1290,7 +1290,7 @@ def judge_flow(chk, c, req, resp):
 
 def run_rerun(chk, quick):
     rng = chk.rng
-    jobs = [(rng.getrandbits(48), 8, 3, 10) for _ in range(48 if quick else 800)]
+    jobs = [(rng.getrandbits(48), 8, 3, 10) for _ in range(32 if quick else 800)]
     with ProcessPoolExecutor(max_workers=min(16, os.cpu_count() or 4)) as ex:
         for job in ex.map(rerun_job, jobs, chunksize=2):
             judge_rerun_job(chk, job)
